@@ -134,6 +134,9 @@ def function_value(F, fn_raw, crate, op):
             return ("closure", g)
     if rv["k"] == "use":
         return function_value(F, fn_raw, crate, rv["a"])
+    if rv["k"] == "ref" and not rv["place"]["p"]:
+        # `op(&a, &b)` on an `impl Fn` parameter is `Fn::call(&op, (..))`
+        return function_value(F, fn_raw, crate, {"copy": rv["place"]})
     return None
 
 
